@@ -230,3 +230,38 @@ Proof.
            eq_refl eq_refl eq_refl Hp NoLR nul rk W).
 Qed.
 Print Assumptions C01_memoized_terminates.
+
+(* ---- the headline for grammars with @memoize rules ------------------------------------------
+   EVERY grammar that passes the well-formedness check and has no @leftrec rule, ANY subset of its
+   rules marked @memoize, pure check/extern oracles, every rule and every input: there is a bound F
+   such that for all recursion bounds n, m >= F the model of the generated (memoizing) parser with
+   bound n returns, the PEG specification with bound m returns, and
+     - the parser accepts iff the specification does, with the same tree, the same consumed prefix
+       and the same end offset (C01, C02, C05, C08, C09, C14 on memoized grammars),
+     - the parser fails iff the specification does,
+     - the model never stops at a value-shape mismatch (C03).
+   (MemoEq: memoized ~ unmarked; Sim: unmarked ~ specification; Termination + MemoTot: all three
+   return.) *)
+Theorem C01_memoized_well_formed :
+  forall (ustate : Type) (hk : hooks ustate) (shk : shooks) (g : grammar),
+    pure_hooks ustate hk shk ->
+    (forall r, In (GRule r) g -> fl_left_recursive (flags_of (r_directives r)) = false) ->
+    forall nul rk, WellFormed.wf_check g nul rk = true ->
+    forall rule_name cs u, all_scalar cs ->
+    exists F, forall n m, F <= n -> F <= m ->
+      match fst (m_parse ustate Extracted.scfg Extracted.tcfg Extracted.fcfg Extracted.rcfg hk g
+                         n rule_name (encode_str cs) u) with
+      | MOk v st' =>
+        exists consumed cs' l,
+          s_parse Extracted.fcfg shk g true m rule_name cs = SOk v cs' (off st') l /\ cs = consumed ++ cs' /\
+          off st' = length (encode_str consumed) /\ rest st' = encode_str cs'
+      | MErr _ => exists l, s_parse Extracted.fcfg shk g true m rule_name cs = SFail l
+      | MPanic p => p <> PanicShape
+      | MFuel => False
+      end.
+Proof.
+  intros ustate hk shk g Hp NoLR nul rk W.
+  exact (MemoTerm.memoized_well_formed_conforms ustate Extracted.scfg Extracted.fcfg Extracted.rcfg hk shk g
+           eq_refl eq_refl eq_refl Hp NoLR nul rk W).
+Qed.
+Print Assumptions C01_memoized_well_formed.
